@@ -438,3 +438,97 @@ Proof.
   destruct (t <? re_dead e) eqn:El; [|discriminate]. apply Z.ltb_lt in El.
   intros H; inversion H; subst. pose proof (Hr k e Ef) as Hd. unfold rentry_ok in Hd. lia.
 Qed.
+
+(* ================================================================== round 6: the command stream of the redis tier *)
+(* what redis_set does to the tier is exactly the server executing the command redis_set_cmd builds (whatever horizon
+   one gives to PX-less commands: there are none) *)
+Lemma redis_set_is_exec r now stored expire k v nx forever :
+  redis_set r now stored expire k v nx =
+  match redis_set_cmd now expire k nx with
+  | None => r
+  | Some c => redis_exec r now (unix_floor stored) (unix_floor expire) v c forever
+  end.
+Proof.
+  unfold redis_set, redis_set_cmd. destruct (Z.quot (expire - now) MILLI <=? 10); reflexivity.
+Qed.
+
+(* every SET carries a PX; it is the whole milliseconds of the time left to expireTime *)
+Lemma redis_set_cmd_px now expire k nx c :
+  redis_set_cmd now expire k nx = Some c ->
+  exists px, c = RSet k nx (Some px) /\ 10 < px /\ px * MILLI <= expire - now < (px + 1) * MILLI.
+Proof.
+  unfold redis_set_cmd. destruct (Z.quot (expire - now) MILLI <=? 10) eqn:E; [discriminate|].
+  apply Z.leb_gt in E. intros H; inversion H; subst. exists (Z.quot (expire - now) MILLI).
+  split; [reflexivity|]. split; [exact E|]. unfold MILLI in *.
+  assert (0 <= expire - now).
+  { destruct (Z_lt_le_dec (expire - now) 0) as [Hn|]; [|lia].
+    pose proof (Z.quot_opp_l (expire - now) 1000000 ltac:(lia)).
+    pose proof (Z.quot_pos (- (expire - now)) 1000000 ltac:(lia) ltac:(lia)). lia. }
+  rewrite Z.quot_div_nonneg by lia.
+  pose proof (Z.div_mod (expire - now) 1000000 ltac:(lia)). pose proof (Z.mod_pos_bound (expire - now) 1000000 ltac:(lia)). lia.
+Qed.
+
+(* the command of a Store: SET key [NX iff the response is an error response] PX p, with p the whole milliseconds of
+   lifetime - eps, lifetime = the policy lifetime of the response; never a SET without PX *)
+Lemma store_cmd_shape mx t eps k resp pk c :
+  ct_store_cmd mx t eps k resp pk = Some c ->
+  exists m px, resp = Some m /\ h_tc (m_hdr m) = false /\ pk = true /\
+    c = RSet k (negative m) (Some px) /\ 10 < px /\
+    px * MILLI <= msg_lifetime mx m - eps < (px + 1) * MILLI.
+Proof.
+  unfold ct_store_cmd. destruct resp as [m|]; [|discriminate].
+  destruct (h_tc (m_hdr m)) eqn:Et; [discriminate|]. destruct pk; cbn [negb]; [|discriminate].
+  intros H. apply redis_set_cmd_px in H. destruct H as (px & -> & H10 & Hb).
+  exists m, px. repeat split; auto; lia.
+Qed.
+
+(* ... and the redis tier after the Store is the server having executed exactly that command (both configurations) *)
+Lemma store_red_is_exec hm mx st t eps k resp pk forever :
+  ct_red (fst (ctc_store hm mx st t eps k resp pk)) =
+  match ct_store_cmd mx t eps k resp pk with
+  | None => ct_red st
+  | Some c =>
+    match resp with
+    | Some m => redis_exec (ct_red st) (t + eps) (unix_floor t) (unix_floor (t + msg_lifetime mx m)) m c forever
+    | None => ct_red st
+    end
+  end.
+Proof.
+  unfold ct_store_cmd. destruct resp as [m|].
+  - destruct (h_tc (m_hdr m)) eqn:Et.
+    + destruct hm; cbn [ctc_store]; [|rewrite Et; reflexivity].
+      unfold ct_store. rewrite (store_skip_tc mx (ct_mem st) t eps k m pk Et). reflexivity.
+    + destruct pk; cbn [negb].
+      * rewrite <- (redis_set_is_exec (ct_red st) (t + eps) t (t + msg_lifetime mx m) k m (negative m) forever).
+        destruct hm; cbn [ctc_store]; [|rewrite Et; reflexivity].
+        unfold ct_store. destruct (cachectl_store mx (ct_mem st) t eps k (Some m) true) as [mem' o] eqn:Es.
+        destruct o; try reflexivity.
+        exfalso. revert Es. unfold cachectl_store. rewrite Et. cbn [negb].
+        destruct (mem_store _ _ _ _ _ _ _) as [s2 [|]]; intros H; inversion H.
+      * destruct hm; cbn [ctc_store]; [|rewrite Et; reflexivity].
+        unfold ct_store. unfold cachectl_store. rewrite Et. reflexivity.
+  - destruct hm; reflexivity.
+Qed.
+
+(* consequence for expiry, stated on the command: a key written by the command of a Store is gone from the server
+   lifetime - eps (cut to whole ms) after the command, i.e. before fetch + lifetime *)
+Lemma store_cmd_deadline mx t eps k m pk c r forever e t2 :
+  0 <= eps -> ct_store_cmd mx t eps k (Some m) pk = Some c ->
+  redis_lookup (redis_exec r (t + eps) (unix_floor t) (unix_floor (t + msg_lifetime mx m)) m c forever) t2 k = Some e ->
+  re_msg e = m -> ct_rfind k r = None ->
+  t2 < t + msg_lifetime mx m.
+Proof.
+  intros He Hc Hl Hm Hnone. apply store_cmd_shape in Hc. destruct Hc as (m0 & px & Hr & _ & _ & -> & _ & Hb).
+  inversion Hr; subst m0. unfold redis_lookup, redis_exec in Hl. rewrite Hnone in Hl. rewrite rfind_put, N.eqb_refl in Hl.
+  cbn [re_dead] in Hl. destruct (t2 <? t + eps + px * MILLI) eqn:E; [|discriminate]. apply Z.ltb_lt in E. lia.
+Qed.
+
+(* REFUTED variant: the set-if-absent branch sends  SET key value NX  without PX.  The key then outlives every horizon:
+   whatever lifetime the policy gave the (error) response, it is still served lifetime + 2 s after the fetch. *)
+Lemma nx_without_px_serves_forever r now s x v k forever t2 :
+  ct_rfind k r = None -> now <= t2 < now + forever ->
+  redis_lookup (redis_exec r now s x v (RSet k true None) forever) t2 k = Some (mkREntry s x v (now + forever)).
+Proof.
+  intros Hn Ht. unfold redis_lookup, redis_exec. rewrite Hn, rfind_put, N.eqb_refl. cbn [re_dead].
+  destruct (t2 <? now + forever) eqn:E; [reflexivity|]. apply Z.ltb_ge in E. lia.
+Qed.
